@@ -150,6 +150,11 @@ func (fc *FnCtx) execInstr(fr *Frame, st *State, instr ssa.Instruction, edgeCond
 		return false
 	case *ssa.Range:
 		fr.env[x] = &rangeIter{x: x, coll: fc.value(fr, st, x.X)}
+		if mt, isMap := unalias(x.X.Type()).Underlying().(*types.Map); isMap {
+			// ghost set of the keys this iteration has produced so far
+			ks := sortOf(mt.Key())
+			st.cells[cellKey{fr.id, "visited:" + x.Name()}] = T(arrSort(ks, SBool), fmt.Sprintf("((as const %s) false)", arrSort(ks, SBool)))
+		}
 		return false
 	case *ssa.Next:
 		fr.env[x] = fc.execNext(fr, st, x)
@@ -177,6 +182,46 @@ func (fc *FnCtx) execInstr(fr *Frame, st *State, instr ssa.Instruction, edgeCond
 func (fc *FnCtx) obligeSafe(st *State, kind, detail string, goal Term, pos token.Pos, props []string, src string) {
 	fc.oblige(st, kind, detail, goal, pos, props, src)
 	fc.assume(st, goal)
+}
+
+// deleteOnlyLoop: the natural loop headed by the block of this Next contains no map insertion and no call
+// other than the builtin delete (so the set of entries can only shrink while iterating).
+func deleteOnlyLoop(x *ssa.Next) bool {
+	h := x.Block()
+	body := map[*ssa.BasicBlock]bool{h: true}
+	var stack []*ssa.BasicBlock
+	for _, p := range h.Preds {
+		if h.Dominates(p) && !body[p] {
+			body[p] = true
+			stack = append(stack, p)
+		}
+	}
+	for len(stack) > 0 {
+		b := stack[len(stack)-1]
+		stack = stack[:len(stack)-1]
+		for _, p := range b.Preds {
+			if !body[p] {
+				body[p] = true
+				stack = append(stack, p)
+			}
+		}
+	}
+	if len(body) == 1 {
+		return false
+	}
+	for b := range body {
+		for _, in := range b.Instrs {
+			switch c := in.(type) {
+			case *ssa.MapUpdate, *ssa.Go, *ssa.Defer, *ssa.Send, *ssa.Select:
+				return false
+			case *ssa.Call:
+				if bi, ok := c.Call.Value.(*ssa.Builtin); !ok || bi.Name() != "delete" {
+					return false
+				}
+			}
+		}
+	}
+	return true
 }
 
 type rangeIter struct {
@@ -846,6 +891,19 @@ func (fc *FnCtx) execNext(fr *Frame, st *State, x *ssa.Next) Val {
 	okc := fc.fresh("nextok", SBool)
 	k := fc.fresh("nextk", ks)
 	fc.assume(st, tImp(okc, tSelect(tSelect(st.heaps[hasN], m), k)))
+	vk := cellKey{fr.id, "visited:" + it.x.Name()}
+	if vis, ok := st.cells[vk].(Term); ok {
+		// a key is produced at most once
+		fc.assume(st, tImp(okc, tNot(tSelect(vis, k))))
+		if deleteOnlyLoop(x) {
+			// Go spec: an entry that is not removed during the iteration is produced; when the body
+			// only deletes (no insertion can add unvisited entries) every entry left at the end was visited
+			q := fc.fresh("q_vis", ks)
+			fc.assume(st, tImp(tNot(okc), T(SBool, fmt.Sprintf("(forall ((%s %s)) (! (=> (select %s %s) (select %s %s)) :pattern ((select %s %s))))",
+				q.S, ks, tSelect(st.heaps[hasN], m).S, q.S, vis.S, q.S, tSelect(st.heaps[hasN], m).S, q.S))))
+		}
+		st.cells[vk] = tIte(okc, tStore(vis, k, tTrue), vis)
+	}
 	v := tSelect(tSelect(st.heaps[valN], m), k)
 	return &TupleVal{Elems: []Val{okc, k, v}}
 }
